@@ -19,10 +19,14 @@ CONFIG = dict(
           "not HasPrefix(l,p)); Compact(start,limit) must cover [p+start, p+limit). Non-trivial = an operation goes through a table "
           "whose effective prefix ends in 0xff, or through a nested table, while keys of the neighbouring key spaces p-1 / p+1 are "
           "present underneath; distinct by hash of table layout and history. The enumeration unit covers every prefix of length "
-          "0-1 and every prefix of length 2-3 over the alphabet, alone and as (outer, inner) pairs."),
+          "0-1 and every prefix of length 2-3 over the alphabet, alone and as (outer, inner) pairs. "
+          "A batch is also written without Reset (write_keep) and written again after the same keys were changed through the table or the "
+          "underlying store (the model re-applies every operation queued since the last Reset, which is what the memorydb/flushable "
+          "batch under the tables does), and a third of the cases pad table prefixes to 4-40 bytes and draw keys of 30-70 bytes so "
+          "that prefix+key ends at or around 32, 64 and 128 bytes, for root and nested tables."),
     assumptions=[
         "keys and values are non-nil",
-        "a batch is Reset after Write before it is used again",
+        "a batch's Write() re-applies every operation queued since the last Reset() (flushable/memorydb and leveldb batches do)",
         "Compact(start,limit) with explicit bounds is required to cover the prefixed range (the property text only speaks about "
         "whole-table compaction; this reading holds trivially for the current code)",
     ],
